@@ -132,12 +132,17 @@ KINDS = ["gaussian", "gaussian_default", "gaussian_arraycov", "gaussian_cplx", "
          # forward models with keyword arguments (default and non-default values), mixed-dtype data trees,
          # narrow / unsigned / single-precision data dtypes
          "amend_kwargs", "amend_kwargs_default", "amend_kwargs_poisson", "vcg_mixed_tree",
-         "poisson_u8", "poisson_i32", "categorical_i32", "categorical_u8"]
+         "poisson_u8", "poisson_i32", "categorical_i32", "categorical_u8",
+         # non-default constructor keywords; freeze / amend combinations with coupled forward models
+         "gaussian_stdonly", "gaussian_covonly", "studentt_arraydof", "vcstudentt_arraydof", "categorical_axis0",
+         "freeze_coupled_gauss", "freeze_coupled_poisson", "freeze_coupled_first", "amend_amend", "freeze_amend_amend"]
 # (float32 data declares a float32 domain; evaluating it at float64 points is a dtype mismatch of the caller
 #  -- jax.linear_transpose refuses it -- so single precision is exercised on the classic side only, C11)
 EXACT_PULLBACK = {"gaussian", "gaussian_default", "gaussian_arraycov", "gaussian_cplx", "gaussian_tree", "studentt", "poisson",
                   "amend_poisson", "sum_gauss_poisson", "freeze_sum", "amend_cplx", "sum_cplx", "freeze_cplx",
-                  "amend_kwargs", "amend_kwargs_default", "amend_kwargs_poisson", "poisson_u8", "poisson_i32"}
+                  "amend_kwargs", "amend_kwargs_default", "amend_kwargs_poisson", "poisson_u8", "poisson_i32",
+                  "gaussian_stdonly", "gaussian_covonly", "studentt_arraydof", "freeze_coupled_gauss", "freeze_coupled_poisson",
+                  "freeze_coupled_first", "amend_amend", "freeze_amend_amend"}
 
 
 def krng(kind, seed):
@@ -298,6 +303,54 @@ def make(kind, seed):
                 full = l1 + l2
                 lp, liquid = full.freeze(primals=xi, point_estimates=("w",))
                 I["lh"], I["p"], I["full"], I["xi"] = lp, liquid, full, xi
+    elif kind == "gaussian_stdonly":
+        si = np.exp(rng.normal(size=n) * 0.4)
+        I["lh"] = jft.Gaussian(jnp.asarray(rng.normal(size=n)), noise_std_inv=lambda x: si * x)      # cov_inv derived: std_inv(1)**2
+        I["p"] = jnp.asarray(rng.normal(size=n))
+    elif kind == "gaussian_covonly":
+        ci = np.exp(rng.normal(size=n) * 0.4)
+        I["lh"] = jft.Gaussian(jnp.asarray(rng.normal(size=n)), noise_cov_inv=lambda x: ci * x)      # std_inv derived: sqrt(cov_inv(1))
+        I["p"] = jnp.asarray(rng.normal(size=n))
+    elif kind == "studentt_arraydof":
+        si, dof = np.exp(rng.normal(size=n) * 0.4), np.exp(rng.uniform(0, 3, size=n))
+        I["lh"] = jft.StudentT(jnp.asarray(rng.normal(size=n)), jnp.asarray(dof), noise_std_inv=lambda x: si * x)
+        I["p"] = jnp.asarray(rng.normal(size=n))
+    elif kind == "vcstudentt_arraydof":
+        I["lh"] = jft.VariableCovarianceStudentT(jnp.asarray(rng.normal(size=n)), jnp.asarray(np.exp(rng.uniform(0, 3, size=n))))
+        I["p"] = (jnp.asarray(rng.normal(size=n)), jnp.asarray(np.exp(rng.normal(size=n) * 0.5)))
+    elif kind == "categorical_axis0":
+        rows, K = 2, 3
+        idx = rng.integers(0, K, size=(1, rows))
+        I["lh"] = jft.Categorical(jnp.asarray(idx), axis=0)
+        I["p"] = jnp.asarray(rng.normal(size=(K, rows)))
+        I["lsm_example"] = jnp.zeros((K, rows))
+        I["idx"], I["K"] = idx, K
+    elif kind in ("freeze_coupled_gauss", "freeze_coupled_poisson", "freeze_coupled_first", "amend_amend", "freeze_amend_amend"):
+        # forward models that COUPLE the frozen and the liquid parameters, evaluated at non-zero frozen values
+        si = np.exp(rng.normal(size=n) * 0.3)
+        if kind == "freeze_coupled_poisson":
+            base = jft.Poissonian(jnp.asarray(rng.poisson(4.0, size=n).astype(np.int64)))
+        else:
+            base = jft.Gaussian(jnp.asarray(rng.normal(size=n)), noise_std_inv=lambda x: si * x)
+        dom = jft.Vector({"a": jft.ShapeWithDtype((n,)), "b": jft.ShapeWithDtype((n,))})
+        fwd = lambda x: jnp.exp(0.3 * x.tree["a"]) * (2.0 + jnp.tanh(x.tree["b"]))
+        xi = jft.Vector({"a": jnp.asarray(rng.normal(size=n)), "b": jnp.asarray(0.5 + rng.uniform(0.2, 1.0, size=n))})
+        if kind in ("amend_amend", "freeze_amend_amend"):
+            # amend twice: inner model on (c, e), outer maps (a, b) -> (c, e) and couples a and b
+            inner = lambda y: jnp.exp(0.3 * y.tree["c"]) * (2.0 + jnp.tanh(y.tree["e"]))
+            dom_in = jft.Vector({"c": jft.ShapeWithDtype((n,)), "e": jft.ShapeWithDtype((n,))})
+            outer = lambda x: jft.Vector({"c": x.tree["a"] * x.tree["b"], "e": x.tree["b"] - 0.2 * x.tree["a"] ** 2})
+            full = base.amend(inner, domain=dom_in).amend(outer, domain=dom)
+            I["base"], I["f"] = {"lh": base}, (lambda x: inner(outer(x)))
+        else:
+            full = base.amend(fwd, domain=dom)
+        if kind == "amend_amend":
+            I["lh"], I["p"] = full, xi
+        else:
+            pe = ("a",) if kind == "freeze_coupled_first" else ("b",)
+            lp, liquid = full.freeze(primals=xi, point_estimates=pe)
+            I["lh"], I["p"], I["full"], I["xi"] = lp, liquid, full, xi
+            I["liquid_first"] = pe == ("b",)
     elif kind in ("sum_gauss_poisson", "freeze_sum"):
         g, po = make("gaussian", seed), make("poisson", seed)
         a = rng.normal(size=n) * 0.3
@@ -577,14 +630,25 @@ def run_instance(kind, seed, with_expectations=True):
             fails.append(("sum", {"M": M.tolist(), "M1+M2": (m1["M"] + m2["M"]).tolist()}))
         if not close(L @ L.T, m1["L"] @ m1["L"].T + m2["L"] @ m2["L"].T, **tol):
             fails.append(("sum", {"L L^T": (L @ L.T).tolist()}))
-    if kind in ("freeze_sum", "freeze_cplx"):
+    if kind in ("freeze_sum", "freeze_cplx") or kind.startswith("freeze_coupled") or kind == "freeze_amend_amend":
         fm = mats(I["full"], I["xi"])
-        # coordinates of the full domain: keys u (liquid) then w (frozen), 3 entries each
+        # coordinates of the full domain are ordered by key: the liquid block is the leading (u | a) or the
+        # trailing (b, when "a" is frozen) principal block
         nl = M.shape[0]
-        if not close(M, fm["M"][:nl, :nl], **tol):
-            fails.append(("freeze", {"M": M.tolist(), "principal block": fm["M"][:nl, :nl].tolist()}))
-        if not close(L @ L.T, (fm["L"] @ fm["L"].T)[:nl, :nl], **tol):
+        sl = slice(0, nl) if I.get("liquid_first", True) else slice(fm["M"].shape[0] - nl, fm["M"].shape[0])
+        if not close(M, fm["M"][sl, sl], **tol):
+            fails.append(("freeze", {"M": M.tolist(), "principal block": fm["M"][sl, sl].tolist()}))
+        if not close(L @ L.T, (fm["L"] @ fm["L"].T)[sl, sl], **tol):
             fails.append(("freeze", {"L L^T": (L @ L.T).tolist()}))
+        if not close(L, fm["L"][sl, :], **tol):
+            fails.append(("freeze", {"L": L.tolist(), "liquid rows of the full L": fm["L"][sl, :].tolist()}))
+        if not close(R, fm["R"][:, sl], **tol):
+            fails.append(("freeze", {"R": R.tolist(), "liquid columns of the full R": fm["R"][:, sl].tolist()}))
+        # the frozen likelihood is the full one with the frozen inputs inserted
+        e1 = float(lh.energy(p))
+        e2 = float(I["full"].energy(I["xi"]))
+        if not close(e1, e2, 1e-12, atol=1e-12):
+            fails.append(("freeze", {"energy": e1, "energy of the full likelihood": e2}))
     if with_expectations:
         fx = fisher_exact(kind, seed)
         if fx is not None:
@@ -638,6 +702,20 @@ def corr_generated(rend, seed, nrep):
         yield "studentt metric", [R["studentt_M"](c, dof, f(a)) for a in v], lh.metric(jnp.asarray(x), jnp.asarray(v))
         yield "studentt lsm", [R["studentt_L"](si, dof, f(a)) for a in v], lh.left_sqrt_metric(jnp.asarray(x), jnp.asarray(v))
         yield "studentt transformation", [R["studentt_t"](si, dof, f(a)) for a in x], lh.transformation(jnp.asarray(x))
+        # non-default constructor keywords: only noise_std_inv / only noise_cov_inv (the other is derived), array dof
+        sa, dofa = np.exp(rng.normal(size=n) * 0.4), np.exp(rng.uniform(0, 3, size=n))
+        lh = jft.Gaussian(jnp.asarray(d), noise_std_inv=lambda t: sa * t)
+        yield "gaussian(std_inv only) energy", sum(R["gauss_E"](f(c_ * c_), f(a), f(b)) for c_, a, b in zip(sa, d, x)), float(lh.energy(jnp.asarray(x)))
+        yield "gaussian(std_inv only) metric", [R["gauss_M"](f(c_ * c_), f(a)) for c_, a in zip(sa, v)], lh.metric(jnp.asarray(x), jnp.asarray(v))
+        yield "gaussian(std_inv only) lsm", [R["gauss_L"](f(c_), f(a)) for c_, a in zip(sa, v)], lh.left_sqrt_metric(jnp.asarray(x), jnp.asarray(v))
+        lh = jft.Gaussian(jnp.asarray(d), noise_cov_inv=lambda t: sa ** 2 * t)
+        yield "gaussian(cov_inv only) metric", [R["gauss_M"](f(c_ * c_), f(a)) for c_, a in zip(sa, v)], lh.metric(jnp.asarray(x), jnp.asarray(v))
+        yield "gaussian(cov_inv only) lsm", [R["gauss_L"](f(c_), f(a)) for c_, a in zip(sa, v)], lh.left_sqrt_metric(jnp.asarray(x), jnp.asarray(v))
+        yield "gaussian(cov_inv only) transformation", [R["gauss_t"](f(c_), f(a)) for c_, a in zip(sa, x)], lh.transformation(jnp.asarray(x))
+        lh = jft.StudentT(jnp.asarray(d), jnp.asarray(dofa), noise_std_inv=lambda t: sa * t)
+        yield "studentt(array dof, std_inv only) energy", sum(R["studentt_E"](f(c_), f(q), f(a), f(b)) for c_, q, a, b in zip(sa, dofa, d, x)), float(lh.energy(jnp.asarray(x)))
+        yield "studentt(array dof, std_inv only) metric", [R["studentt_M"](f(c_ * c_), f(q), f(a)) for c_, q, a in zip(sa, dofa, v)], lh.metric(jnp.asarray(x), jnp.asarray(v))
+        yield "studentt(array dof, std_inv only) lsm", [R["studentt_L"](f(c_), f(q), f(a)) for c_, q, a in zip(sa, dofa, v)], lh.left_sqrt_metric(jnp.asarray(x), jnp.asarray(v))
         xp = np.exp(rng.normal(size=n))
         dp = rng.poisson(2 * xp).astype(np.int64)
         lh = jft.Poissonian(jnp.asarray(dp))
